@@ -1,5 +1,5 @@
 #!/usr/bin/env python3
-"""tools/regress.py [--jobs N] [filter]  -- checker regression: every benign refactoring must be silent, every seeded change and
+"""tools/regress.py [--jobs N] [--warm] [--json file] [filter]  -- checker regression: every benign refactoring must be silent, every seeded change and
 every reverse-fix must be reported by the check of the property it breaks. Not a registered check."""
 import concurrent.futures
 import glob
@@ -15,7 +15,47 @@ REVFIX = {"revfix-1": ["C05"], "revfix-2": ["C03", "C02"], "revfix-3": ["C13"], 
           "revfix-6": ["C02", "C03"], "revfix-7": ["C04", "C10", "C14"], "revfix-8": ["C14", "C02"], "revfix-9": ["C04", "C03", "C14"], "revfix-10": ["C05"]}
 
 
+def warm_deps():
+    """Compile the crate's dependencies once (same toolchain and flags as the fact extraction) into a scratch target directory that the
+    extractions of the scratch copies start from; the crate's own artefacts are removed so that it is always analysed afresh."""
+    import shutil
+    import subprocess
+    import tempfile
+    src = tempfile.mkdtemp(prefix="hctl-warm-src.")
+    tgt = tempfile.mkdtemp(prefix="hctl-warm-deps.")
+    subprocess.run(["rsync", "-a", "--exclude", "target", "--exclude", ".git", "/repo/", src + "/"], check=True)      # the current working tree
+    env = dict(os.environ, RUSTFLAGS="-Zmir-opt-level=0 -Awarnings", CARGO_TARGET_DIR=tgt, CARGO_NET_OFFLINE="true")
+    env.pop("RUSTC_WRAPPER", None)
+    r = subprocess.run(["cargo", "+nightly", "check", "--offline", "--lib", "--bins"], cwd=src, env=env, stdout=subprocess.PIPE, stderr=subprocess.STDOUT)
+    shutil.rmtree(src, ignore_errors=True)
+    if r.returncode != 0:
+        shutil.rmtree(tgt, ignore_errors=True)
+        return None
+    dbg = os.path.join(tgt, "debug")
+    shutil.rmtree(os.path.join(dbg, "incremental"), ignore_errors=True)
+    for sub in (".fingerprint", "deps"):
+        for f in glob.glob(os.path.join(dbg, sub, "*")):
+            b = os.path.basename(f).replace("-", "_")
+            if any(n in b for n in ("biodivine_hctl_model_checker", "hctl_model_checker", "convert_aeon_to_bnet")):
+                shutil.rmtree(f, ignore_errors=True) if os.path.isdir(f) else os.remove(f)
+    return tgt
+
+
 def main():
+    warm = None
+    if "--warm" in sys.argv:
+        warm = warm_deps()
+        if warm:
+            os.environ["VERIF_WARM_DEPS"] = warm
+    try:
+        return run_all()
+    finally:
+        if warm:
+            import shutil
+            shutil.rmtree(warm, ignore_errors=True)
+
+
+def run_all():
     args = [a for a in sys.argv[1:] if not a.startswith("--")]
     if "--json" in sys.argv:
         args = [a for a in args if a != sys.argv[sys.argv.index("--json") + 1]]
